@@ -36,7 +36,7 @@ Definition run_case (c : kcase) : kobs :=
   let P := mkP min_bal byte_cost 0 0 (fun _ => false) in
   let s := mkM (mkT [(SIGNER, VAcct (mkAcct pre_nonce pre_bal 5)); (OTHER, VRaw 7)] [[]]) 0 [] in
   let x := mkTx SIGNER txn fee gas 0 false 0 in
-  let exec := fun (_ : mode) (_ : tx) => if known then Some (handler costs hkind) else None in
+  let exec := fun (_ : mode) (_ : tx) => if known then Some (run (handler costs hkind)) else None in
   let '(r, _, s') := deliver P exec (if decoded then Some x else None) size s in
   let a := match cget SIGNER (m_tree s') with Some (VAcct a) => a | _ => mkAcct 0 0 0 end in
   (match r with Ok => false | Err _ => true end,
